@@ -68,7 +68,7 @@ def residue_recipe():
             pairs.setdefault(gid[a], []).extend((gid[b], {"xAdvance": -40}, None) for b in f["bases"])
     lefts = sorted(pairs)
     lookups_sub = [{"type": 1, "flag": 0, "subtables": [{"format": 2, "coverage": duals,
-                                                        "substitutes": [forms[t][g] for g in duals]}]}
+                                                        "subst": [forms[t][g] for g in duals]}]}
                    for t in ("isol", "fina", "medi", "init")]
     lookups_sub.append({"type": 4, "flag": 0, "subtables": [{"coverage": [gid[0x66]],
                                                             "ligsets": [[{"glyph": lig, "components": [gid[0x69]]}]]}]})
